@@ -15,3 +15,25 @@ impl<T> Receiver<T> {
         self.0.recv().await.ok_or(Shutdown)
     }
 }
+
+impl<T> Drop for Receiver<T> {
+    fn drop(&mut self) {
+        // Refuse new messages, then take out everything that was sent or is being sent right now.
+        // A sender that acquired its queue slot just before the close pushes its message a moment
+        // later; if the receiver were simply dropped, that message - for the client a request and
+        // its promise - would stay in the queue for as long as any sender handle exists and the
+        // request would never complete. `try_recv` reports `Disconnected` only once the queue is
+        // empty and no slot is held by a sender any more.
+        use tokio::sync::mpsc::error::TryRecvError;
+        self.0.close();
+        // a slot is only ever held between two adjacent statements of `send` / `try_send`, so
+        // `Empty` is a transient answer here; the bound only guards against waiting forever
+        for _ in 0..1_000_000 {
+            match self.0.try_recv() {
+                Ok(x) => drop(x),
+                Err(TryRecvError::Empty) => std::thread::yield_now(),
+                Err(TryRecvError::Disconnected) => break,
+            }
+        }
+    }
+}
